@@ -8,14 +8,13 @@ import (
 	"github.com/textwire/textwire/v2/config"
 )
 
-// VerifReset restores the package-level state (configuration, custom function
-// registry and the mode flag) to the values it has when the package is loaded.
+// VerifReset restores the package-level state (configuration and custom
+// function registry) to the values it has when the package is loaded.
 // It only exists in builds with the "verif" tag and is used by the
 // verification harness to load many template trees in one process.
 func VerifReset() {
 	userConfig = config.New("templates", ".tw.html", "", false)
 	customFunc = config.NewFunc()
-	verifResetMode()
 }
 
 // VerifSnapshot describes the package-level state.
@@ -24,7 +23,6 @@ type VerifSnapshot struct {
 	TemplateExt   string
 	ErrorPagePath string
 	DebugMode     bool
-	Mode          string
 	StrFuncs      []string
 	ArrFuncs      []string
 	IntFuncs      []string
@@ -39,7 +37,6 @@ func VerifState() VerifSnapshot {
 		TemplateExt:   userConfig.TemplateExt,
 		ErrorPagePath: userConfig.ErrorPagePath,
 		DebugMode:     userConfig.DebugMode,
-		Mode:          verifMode(),
 	}
 
 	for k := range customFunc.Str {
